@@ -64,6 +64,7 @@ def _run_once(case, budget_s):
         try:
             box['result'] = case()
         except BaseException as e:
+            e.__traceback__ = None  # do not keep the case's frames (and the objects in them) alive
             box['exc'] = e
 
     t = threading.Thread(target=runner, daemon=True, name='case-runner')
